@@ -561,15 +561,21 @@ func oneView(c *vlib.Check, rep *reporter, idx int, cs *c16lib.Case, plain []*se
 			rep.report(c16lib.Mismatch{Key: "introspection-panic", Where: "WrapSchema", Detail: err.Error()}, "runtime", sc)
 			continue
 		}
-		cmpView(fmt.Sprintf("runtime inc=%v", inc), inc, false, false, obs, sc)
-		cmpTypes(fmt.Sprintf("runtime WrapTypeFromDef inc=%v", inc), inc, false, false, func(name string) (*c16lib.OType, bool) {
-			ot, err := c16lib.ObserveRuntimeType(sch, name, inc)
+		cmpView(fmt.Sprintf("runtime inc=%v", inc), inc, obs.HasArgFilter, obs.HasInpFilter, obs, sc)
+		argF, inpF := false, false
+		probe := func(name string) (*c16lib.OType, bool) {
+			ot, flt, err := c16lib.ObserveRuntimeType(sch, name, inc)
 			if err != nil {
 				rep.report(c16lib.Mismatch{Key: "introspection-panic", Where: name, Detail: err.Error()}, "runtime", sc)
 				return nil, false
 			}
+			argF, inpF = argF || flt.HasArgFilter, inpF || flt.HasInpFilter
 			return ot, ot != nil
-		}, sc)
+		}
+		for _, t := range cs.S.Types { // learn whether this API filters, before comparing
+			probe(t.Name)
+		}
+		cmpTypes(fmt.Sprintf("runtime WrapTypeFromDef inc=%v", inc), inc, argF, inpF, probe, sc)
 	}
 
 	// (b) generated servers
